@@ -46,7 +46,7 @@ def generate(rng, tier):
     if p["levelmax"] > 4:
         p["levelmax"] = 4
         p["levelmin"] = min(p["levelmin"], 4)
-    case = {"world": p, "sortby": None, "sink_missing": False}
+    case = {"world": p, "sortby": None, "sink_missing": False, "warm": rng.random() < 0.2}
     if p["part"] is not None and rng.random() < 0.4:
         uniq = [c[0] for c in p["part"]["columns"] if c[1] in ("d", "i") and not re.search(r"_[xyz]$", c[0])]
         if uniq:
@@ -87,6 +87,13 @@ def execute(case, stats):
         kw = {}
         if case["sortby"]:
             kw["sortby"] = {"part": case["sortby"]}
+        if case.get("warm"):
+            # an earlier load by another dataset in this process, with the same argument objects
+            stats.inc("probe.earlier_load_in_this_process")
+            try:
+                disk.load(**kw)
+            except Exception:
+                pass  # the judged load below reports
         try:
             ds, out = disk.load(seam=FsSeam(), **kw)
         except Exception as e:
@@ -225,11 +232,13 @@ def measure(case):
     ncol = len(p["part"]["columns"]) if p["part"] else 0
     ns = (p["sink"]["nsink"] + len(p["sink"]["columns"])) if p["sink"] else 0
     return (p["ncpu"], npart, ncol, ns, p["levelmax"], p["ndim"], int(case["sortby"] is not None), len(p["hydro_vars"]), p["nboundary"],
-            int(p["units"] != [1.0, 1.0, 1.0]), p["maxcells"], int(bool(p["grav"])) + int(bool(p["rt_vars"])))
+            int(p["units"] != [1.0, 1.0, 1.0]), p["maxcells"], int(bool(p["grav"])) + int(bool(p["rt_vars"])), int(bool(case.get("warm"))))
 
 
 def reductions(case, viol):
     p = case["world"]
+    if case.get("warm"):
+        yield dict(case, warm=False)
     for q in world_reductions(p):
         # keep the part/sink population that the violation is about
         if viol["class"] == "part" and q.get("part") is None:
